@@ -479,3 +479,31 @@ class process_tz:
         time.tzset()
         return False
 
+
+def first_use_sweep(col, name, pid_clause):
+    """runs vf.firstuse VARIANTS for workload `name` (each in a fresh interpreter, in parallel) and records them in `col`"""
+    from . import firstuse
+    want = firstuse.expected(name)
+    jobs = [(name, n, d, REPO) for n, d in firstuse.VARIANTS]
+    for r in pmap(firstuse.run_variant, jobs, n=len(jobs)):
+        case = {"kind": "first-use", "workload": name, "n": r["n"], "delay": r["delay"]}
+        if r.get("error"):
+            raise RuntimeError(f"first-use harness: {r['error']}")
+        vs = []
+        t0, t1 = r.get("t0"), r.get("t1")
+        if name == "c01":
+            # each thread serialises its own message three times: all three equal, and equal to what the other variants produce alone
+            for t, v in (("t0", t0), ("t1", t1)):
+                if not isinstance(v, list) or len(set(v)) != 1:
+                    vs.append(V(pid_clause, f"first-use/{name}/unstable-result", f"thread {t} with t0 parked at line {r['n']}: {str(v)[:300]}"))
+            case["_dumps"] = [t0[0] if isinstance(t0, list) and t0 else None, t1[0] if isinstance(t1, list) and t1 else None]
+        else:
+            for t, v in (("t0", t0), ("t1", t1)):
+                if v != want:
+                    bad = next((i for i, (a, b) in enumerate(zip(v, want)) if a != b), None) if isinstance(v, list) else None
+                    vs.append(V(pid_clause, f"first-use/{name}/wrong-result-in-{'the-parked-thread' if t == 't0' else 'the-other-thread'}",
+                                f"t0 parked at its line {r['n']} for {r['delay']} s: item {bad}: got {v[bad] if bad is not None else str(v)[:200]}, want {want[bad] if bad is not None else ''}"))
+        col.record({k: v for k, v in case.items() if not k.startswith("_")}, vs, nontrivial=bool(r.get("holds_taken")),
+                   classes=["first-use-concurrent"] + (["first-use-parked-mid-call"] if r.get("holds_taken") else []))
+        yield case
+
